@@ -45,7 +45,61 @@ func hintHosts(P *Program) []*ssa.Function {
 			out = append(out, f)
 		}
 	}
+	// an unexported helper that only witnesses the values (its callers apply the checks) is represented by its
+	// callers: the discipline is decided where the helper's results are used
+	callersOf := func(g *ssa.Function) []*ssa.Function {
+		var cs []*ssa.Function
+		seen := map[*ssa.Function]bool{}
+		for _, f := range P.ModuleFuncsSorted() {
+			for _, b := range f.Blocks {
+				for _, ins := range b.Instrs {
+					if c, ok := ins.(ssa.CallInstruction); ok && c.Common().StaticCallee() == g && !seen[f] {
+						seen[f] = true
+						cs = append(cs, f)
+					}
+				}
+			}
+		}
+		return cs
+	}
+	for depth := 0; depth < 2; depth++ {
+		var next []*ssa.Function
+		seen := map[*ssa.Function]bool{}
+		for _, f := range out {
+			cs := callersOf(f)
+			samePkg := len(cs) > 0
+			for _, c := range cs {
+				if fnPkgShort(c) != fnPkgShort(f) {
+					samePkg = false
+				}
+			}
+			if f.Object() != nil && !f.Object().Exported() && samePkg {
+				for _, c := range cs {
+					if !seen[c] {
+						seen[c] = true
+						next = append(next, c)
+					}
+				}
+			} else if !seen[f] {
+				seen[f] = true
+				next = append(next, f)
+			}
+		}
+		out = next
+	}
+	sort.Slice(out, func(i, j int) bool { return out[i].String() < out[j].String() })
 	return out
+}
+
+// helperChain: the record was produced inside unexported helpers of the entry's own package (a gadget split into
+// steps), not inside another gadget
+func helperChain(entry *ssa.Function, chain []CallStep) bool {
+	for _, cs := range chain {
+		if cs.Callee == nil || cs.Callee.Object() == nil || cs.Callee.Object().Exported() || fnPkgShort(cs.Callee) != fnPkgShort(entry) {
+			return false
+		}
+	}
+	return true
 }
 
 type widthSite struct {
@@ -207,7 +261,7 @@ func collectHintFacts(cx *Ctx, host *ssa.Function) (*Run, []*hintFacts) {
 	r := cx.EntryFn(host)
 	var out []*hintFacts
 	for _, rec := range r.Recs {
-		if rec.Kind != "hint" || len(rec.Chain) != 0 {
+		if rec.Kind != "hint" || !helperChain(host, rec.Chain) {
 			continue
 		}
 		name := "?"
@@ -295,7 +349,7 @@ func collectHintFacts(cx *Ctx, host *ssa.Function) (*Run, []*hintFacts) {
 		var cands []*Rec
 		for pass := 0; pass < 2; pass++ {
 			for _, s := range r.Recs {
-				if s.Kind == "eq" && s.Must && len(s.Args) == 2 && (len(s.Chain) == 0) == (pass == 0) {
+				if s.Kind == "eq" && s.Must && len(s.Args) == 2 && helperChain(host, s.Chain) == (pass == 0) {
 					cands = append(cands, s)
 				}
 			}
@@ -632,7 +686,7 @@ func rulesC07(cx *Ctx) []Obligation {
 		desc := "inverse of zero reports 'no inverse' instead of failing: the product assertion is a Select conditioned on IsZero(x), and the returned flag depends on the same IsZero(x)"
 		found := false
 		for _, rec := range r.Recs {
-			if rec.Kind != "eq" || !rec.Must || len(rec.Chain) != 0 || len(rec.Args) != 2 {
+			if rec.Kind != "eq" || !rec.Must || !helperChain(r.Entry, rec.Chain) || len(rec.Args) != 2 {
 				continue
 			}
 			for _, a := range rec.Args {
